@@ -201,6 +201,25 @@ def run_shard(ctx, shard):
             ctx.tag('sparse_pages')
             if i == 0:
                 ctx.sample({'grid': grid[:6]})
+    elif shard['kind'] == 'long':
+        # tall and wide grids: runs of dozens of rows / more than a hundred columns with stubs and corners on them
+        # (float tolerances in the merging code scale with the length of a run)
+        rng = rng_for(ctx.seed, ID, shard['name'])
+        for i in range(shard['n']):
+            if rng.random() < 0.5:
+                w, h = rng.randint(1, 4), rng.randint(20, 70)
+            else:
+                w, h = rng.randint(90, 180), rng.randint(1, 3)
+            main = rng.choice('-|+')
+            grid = []
+            for y in range(h):
+                row = ''
+                for x in range(w):
+                    q = rng.random()
+                    row += main if q < 0.85 else rng.choice('-|+ ')
+                grid.append(row)
+            ctx.run_case({'grid': grid})
+            ctx.tag('long_grids')
     elif shard['kind'] == 'boxes':
         # 1..3 boxes of + - | planted on a canvas, then a few random overwrites (ladders, gaps, overhangs, labels)
         rng = rng_for(ctx.seed, ID, shard['name'])
@@ -272,6 +291,7 @@ def execute(run):
         shards += [{'kind': 'rand', 'name': 'rand-%d' % i, 'n': 1500} for i in range(16)]
         shards += [{'kind': 'boxes', 'name': 'boxes-%d' % i, 'n': 1500} for i in range(8)]
         shards += [{'kind': 'sparse', 'name': 'sparse-%d' % i, 'n': 150} for i in range(8)]
+        shards += [{'kind': 'long', 'name': 'long-%d' % i, 'n': 150} for i in range(8)]
         exhaustive_sizes = sizes
     else:
         sizes = [(1, 1), (2, 1), (1, 2), (2, 2), (3, 2), (2, 3), (3, 3), (4, 2), (2, 4), (8, 1), (1, 8), (5, 2), (2, 5), (4, 3), (3, 4)]
@@ -284,6 +304,7 @@ def execute(run):
         shards += [{'kind': 'rand', 'name': 'rand-%d' % i, 'n': 12000} for i in range(32)]
         shards += [{'kind': 'boxes', 'name': 'boxes-%d' % i, 'n': 12000} for i in range(16)]
         shards += [{'kind': 'sparse', 'name': 'sparse-%d' % i, 'n': 1500} for i in range(16)]
+        shards += [{'kind': 'long', 'name': 'long-%d' % i, 'n': 1500} for i in range(16)]
         exhaustive_sizes = sizes
     run.extra_cov['exhaustive_scopes'] = ['all grids over {space,-,|,+} of size %dx%d' % s for s in exhaustive_sizes]
     run.extra_cov['exhaustive'] = False
